@@ -560,10 +560,10 @@ func specViolations(cfg *reqmodel.Cfg, x *reqmodel.Ctx, r *reqmodel.Request, obs
 	if r.Minor == 0 {
 		proto = "1.0"
 	}
-	if !nominated["via"] && !ruleTouched("via") {
+	if !ruleTouched("via") {
 		want := proto + " " + cfg.Tag
 		class := ""
-		if len(in["via"]) > 0 {
+		if len(in["via"]) > 0 && !nominated["via"] { // a nominated Via is hop-by-hop: dropped, then the own element is added
 			want = strings.Join(in["via"], ", ") + ", " + want
 			if len(in["via"]) > 1 {
 				class = "multi-line-via"
@@ -573,10 +573,10 @@ func specViolations(cfg *reqmodel.Cfg, x *reqmodel.Ctx, r *reqmodel.Request, obs
 			add("one Via element is appended after the existing ones", class, fmt.Sprintf("%q vs %q", got, want))
 		}
 	}
-	if !nominated["x-forwarded-for"] && !ruleTouched("x-forwarded-for") {
+	if !ruleTouched("x-forwarded-for") {
 		want := x.ClientIP
 		class := ""
-		if vin := nonEmpty(in["x-forwarded-for"]); len(vin) > 0 {
+		if vin := nonEmpty(in["x-forwarded-for"]); len(vin) > 0 && !nominated["x-forwarded-for"] {
 			want = strings.Join(vin, ", ") + ", " + want
 			if len(in["x-forwarded-for"]) > 1 {
 				class = "multi-line-xff"
